@@ -301,7 +301,7 @@ pub fn run(run: &mut Run) -> &'static str {
     run.proptest_part("corruptions", RULE, pos_case(8..120), cases, |c: &PosCase, st: &mut Stats| {
         let tp_data: Vec<u16> = match c {
             PosCase::Tape(t) => t.iter().rev().copied().collect(),
-            PosCase::Fen(_) => vec![],
+            _ => vec![],
         };
         let mut tp = Tape::new(&tp_data);
         if let PosCase::Fen(text) = c {
